@@ -356,11 +356,36 @@ def gen_conc_segments(nseg, seed, nthreads=(2, 4), oplen=(3, 14), prefix='conc')
             nqx = rnd.choice([0, 0, 1])
             lines.append('pre watch 4 2 %d %d 0' % (nqx, rnd.choice([1, 2]) if nqx else 0))
         focused = cross and rnd.random() < 0.5      # short programs that start with the two racing operations
+        # an expectation placed (by the main thread) on thread u's own mock but owned by thread v: v releases / queries it
+        # while u may be destroying the mock (destruction of a mock vs. release of one of its expectations, from two threads)
+        xown = {}
+        if T >= 2 and rnd.random() < 0.6:
+            u = rnd.choice([x for x in range(T) if x + 1 < NM_ID])
+            v = rnd.choice([x for x in range(T) if x != u])
+            sx = 2 * v + rnd.choice([1, 2])
+            shx = rnd.choice(CONC_SHAPES)
+            dx = DERIVED[shx]
+            lo, hi = rnd.choice(bounds)
+            if shx == 12:
+                lo, hi = 0, 0
+            qx = rnd.sample([1, 2], dx['nq']) + [0, 0]
+            lines.append('pre ' + expect_line(sx, shx, u + 1, ((0, 0), (0, 0)), ((0, 0), (0, 0), (0, 0)), (0, 0, 0), 100 * sx, lo, hi, (qx[0], qx[1])))
+            xown = dict(u=u, v=v, s=sx, sh=shx, early=rnd.random() < 0.5)
         for t in range(T):
             own_slots = [2 * t + 1, 2 * t + 2]
             own_mock = t + 1 if t + 1 < NM_ID else 0
             own_mock_alive = own_mock != 0
             live = {}
+            if xown and xown['v'] == t:
+                live[xown['s']] = xown['sh']
+                if xown['early']:
+                    lines.append('thr %d %s %d' % (t, rnd.choice(['release', 'query', 'release']), xown['s']))
+                    if lines[-1].split()[2] == 'release':
+                        del live[xown['s']]
+            if xown and xown['u'] == t and xown['early']:
+                if rnd.random() < 0.5:
+                    lines.append('thr %d call %d 1 %d 0' % (t, own_mock, rnd.choice([0, 1])))
+                lines.append('thr %d dmock %d' % (t, own_mock)); own_mock_alive = False
             mon_alive = False
             obj_alive = True
             k = t + 1
